@@ -351,6 +351,9 @@ fn common_data_for_recursion(cap_height: usize) -> CommonCircuitData<F, D> {
 }
 
 fn exec_cyclic(case: &Case, rep: &mut Report) {
+    // scheduler and entropy are armed before anything runs (the base proof grinds: without this the winner of its
+    // parallel search depended on what the process had executed before - found by the determinism self-test)
+    arm(&case.sched, &case.entropy);
     let mut r = Rng::new(case.fault_seed);
     // Merkle cap height of the cyclic circuit: the standard 4 and its neighbours
     let cap_height = *Rng::new(case.fault_seed ^ 0xca9).pick(&[4usize, 4, 0, 1, 2, 3]);
@@ -394,6 +397,7 @@ fn exec_cyclic(case: &Case, rep: &mut Report) {
     let sig = hash_value(&json!(["cyclic", case.chain_len, case.entropy.seed]));
     let initial: [u64; 4] = [r.felt(), r.felt_biased(), r.felt(), r.felt()];
     let init_pis: HashMap<usize, F> = initial.iter().enumerate().map(|(i, x)| (i, fe(*x))).collect();
+    arm(&case.sched, &case.entropy);
     let base = match guarded(|| cyclic_base_proof(&common_data, &data.verifier_only, init_pis.clone())) {
         Ok(p) => p,
         Err(e) => return viol(rep, case, "cyclic", "cyclic_base_proof_panicked", e),
@@ -453,6 +457,7 @@ fn exec_cyclic(case: &Case, rep: &mut Report) {
         } else {
             vd2.circuit_digest.elements[r.usize(4)] += F::ONE;
         }
+        arm(&case.sched, &case.entropy);
         let base2 = match guarded(|| cyclic_base_proof(&common_data, &vd2, init_pis.clone())) {
             Ok(p) => p,
             Err(_) => continue,
